@@ -456,8 +456,11 @@ class Exec:
         """fresh unknown values for the named locals and the graph/registry of the named circuit objects"""
         ctx = self.ctx
         st2 = st.fork()
+        kinds = locals_ if isinstance(locals_, dict) else {}
         for nm in locals_:
             v = st.env.get(nm)
+            if kinds.get(nm) == "errlist":
+                v = ErrList(z3.BoolVal(False))
             st2.env[nm] = self.fresh_like(v, nm)
         for ref in objs:
             rec = st2.heap[ref.oid]
@@ -603,7 +606,7 @@ class Exec:
         import time as _t
         t0 = _t.time()
         sol = z3.Solver()
-        sol.set(timeout=int(os.environ.get("PYVC_FEAS_MS", "150")))
+        sol.set(timeout=int(os.environ.get("PYVC_FEAS_MS", "80")))
         sol.add(self.ctx.axioms)
         sol.add(st.pc)
         sol.add(c)
@@ -658,6 +661,8 @@ class Exec:
             raise Unsupported(f"unknown name {e.id} (line {e.lineno})")
         if isinstance(e, ast.List) or isinstance(e, ast.Tuple):
             items = [self.ev(x, st) for x in e.elts]
+            if not items and isinstance(e, ast.List):
+                return Coll.explicit([])
             if items and all(isinstance(x, StrLit) for x in items) and all(x.s in ctx.tval or len(x.s) <= 12 for x in items) and self._looks_like_types(items):
                 return StrSet([x.s for x in items])
             if isinstance(e, ast.Tuple):
@@ -749,7 +754,8 @@ class Exec:
         if not hasattr(self, "_itoa"):
             self._itoa = z3.Function("itoa", z3.IntSort(), self.ctx.Name)
             a, b = z3.Ints("ia ib")
-            self.ctx.axioms.append(z3.ForAll([a, b], z3.Implies(z3.And(a >= 0, b >= 0, self._itoa(a) == self._itoa(b)), a == b)))
+            if not self.ctx.finite:  # (an injection Int -> Name does not exist over a finite Name universe)
+              self.ctx.axioms.append(z3.ForAll([a, b], z3.Implies(z3.And(a >= 0, b >= 0, self._itoa(a) == self._itoa(b)), a == b)))
         return self._itoa(i)
 
     def boolop(self, e, st):
